@@ -14,6 +14,9 @@
 //	   n times, unanswered logins, accept+close and connection-refused outages, sessions dropped right after
 //	   login, cuts in the middle of 150 registrations; afterwards every configured proxy must be registered
 //	   again within the recovery grace, and the attempt rate in every 5 s window of an outage is bounded.
+//	R. (pair.go) the real pair again: the configuration is reloaded (proxy added / removed / remote port changed / visitor
+//	   added, through Service.UpdateAllConfigurer) while frpc sits in its login back-off during an outage (listener down,
+//	   refusal, server restart, black hole); the recovered session must run the LAST configuration at both ends.
 //	E. (clientside.go) heartbeatTimeout == heartbeatInterval, the smallest timeout the validation accepts: refused, or
 //	   a session whose pings are all answered at once must stay up.
 //	C. real pair (pair.go): frpc <-> fault relay <-> frps with 1 / 20 / 150 proxies under sequences of cuts,
@@ -80,7 +83,7 @@ type caseRef struct {
 func main() {
 	defer h.DisableGC(10)()
 	run = h.NewRun(prop, "fault_enumeration")
-	run.Rule = "one case = one fault sequence: (monitor family, heartbeat interval/timeout in {1/2,1/3,2/5}, tcpMux on/off, number of configured proxies in {1,20,150}, the moment at which the peer falls silent or the ordered list of faults with their PRNG-chosen durations); distinct = distinct (family, interval/timeout, mux, proxies, moment / fault-kind list); family E adds interval = timeout in {1,2,3} (refused by validation, or the answered session must stay up); a case is non-trivial only if its session was established and at least one timed teardown or one recovery was observed"
+	run.Rule = "one case = one fault sequence: (monitor family, heartbeat interval/timeout in {1/2,1/3,2/5}, tcpMux on/off, number of configured proxies in {1,20,150}, the moment at which the peer falls silent or the ordered list of faults with their PRNG-chosen durations); distinct = distinct (family, interval/timeout, mux, proxies, moment / fault-kind list); family R = (outage kind, reload kind) pairs with the reload applied during the outage; family E adds interval = timeout in {1,2,3} (refused by validation, or the answered session must stay up); a case is non-trivial only if its session was established and at least one timed teardown or one recovery was observed"
 	run.Assumptions = []string{
 		"upper bounds are bounded-progress watchdogs: teardown 3x configured timeout + 10 s, recovery 50 s (20 s max login back-off x 1.1 + 10 s dial timeout + 15 s); later events would be reported as violations of the bounded restatement",
 		"lower bounds use the harness clock stamp taken before the last valid ping / pong (or login reply) was written, and the stamp taken after the close was observed: load can only widen the measured span",
@@ -92,10 +95,11 @@ func main() {
 	deadPort = pa.Get()
 	lag = startLagMon()
 
-	nA := run.N(28, 126)
-	nB := run.N(32, 150)
-	nC := run.N(24, 108)
+	nA := run.N(28, 112)
+	nB := run.N(32, 140)
+	nC := run.N(24, 90)
 	nE := run.N(3, 6)
+	nR := run.N(8, 16)
 
 	// servers of family A: one per (timeout, mux)
 	for _, p := range hbPairs {
@@ -122,6 +126,9 @@ transport.maxPoolCount = 2
 	// interleave the families so that long and short cases mix on the workers
 	var plan []caseRef
 	for i := 0; i < nA || i < nB || i < nC; i++ {
+		if i < nR {
+			plan = append(plan, caseRef{"R", i})
+		}
 		if i < nC {
 			plan = append(plan, caseRef{"C", i})
 		}
@@ -151,6 +158,8 @@ transport.maxPoolCount = 2
 			pairCase(c, ref.k)
 		case "E":
 			equalSettingsCase(c, ref.k)
+		case "R":
+			reloadCase(c, ref.k)
 		}
 	})
 	for _, s := range aSrv {
